@@ -124,6 +124,9 @@ func c17Witnesses() []c17Witness {
 		{"F18-C17-star-callback-pulled-forward", c17Case{Pipeline: "create", Ops: []regOp{c17R("u3", "", "*"), c17R("u2", "", "u3"), c17R("u1", "", "")}}},
 		{"F19-C17-duplicate-star-records-reshuffled", c17Case{Pipeline: "create", Ops: []regOp{c17R("u1", "*", ""), c17R("u1", "", "*"), {Op: "replace", Name: "gorm:create"}}}},
 		{"F20-C17-stale-backlink-after-remove", c17Case{Pipeline: "create", Ops: []regOp{c17R("u2", "u1", ""), c17R("u1", "", ""), {Op: "remove", Name: "u2"}, c17R("u2", "", "*")}}},
+		{"F21-C17-builder-value-reused", c17Case{Pipeline: "create", Ops: []regOp{
+			{Op: "register", Name: "u1", Before: "gorm:create", Chain: &c17Chain{Start: []string{"before", "gorm:create"}, Steps: [][2]string{}}},
+			{Op: "register", Name: "u2", Before: "gorm:create", Chain: &c17Chain{Start: []string{"plain"}, Steps: [][2]string{}, Reuse: true}}}}},
 	}
 	for i := range w {
 		for j := range w[i].Case.Ops {
